@@ -302,6 +302,8 @@ pub struct Snapshot {
     /// open sockets right after the scrape (the expiry tick may fall inside it)
     pub open_after: usize,
     pub gauge: Option<f64>,
+    /// outbound_tcp_sockets as scraped (no TCP tunnel exists in this scenario)
+    pub tcp_gauge: Option<f64>,
     pub scrape_error: Option<String>,
 }
 
@@ -594,11 +596,17 @@ async fn run(plan: UPlan, flows_mode: bool) -> Obs {
                     .into_iter()
                     .filter(|s| world::udp_is_open(*s))
                     .collect();
+                let mut tcp_gauge = None;
                 let (gauge, err) = if flows_mode {
                     let (status, text, e) = super::metrics::http_get("/metrics").await;
                     let g = text
                         .lines()
                         .find(|l| l.starts_with("outbound_udp_sockets "))
+                        .and_then(|l| l.rsplit(' ').next())
+                        .and_then(|v| v.parse::<f64>().ok());
+                    tcp_gauge = text
+                        .lines()
+                        .find(|l| l.starts_with("outbound_tcp_sockets "))
                         .and_then(|l| l.rsplit(' ').next())
                         .and_then(|v| v.parse::<f64>().ok());
                     (g, if status == Some(200) { None } else { Some(format!("{:?} {:?}", status, e)) })
@@ -614,6 +622,7 @@ async fn run(plan: UPlan, flows_mode: bool) -> Obs {
                     open_socks: open,
                     open_after,
                     gauge,
+                    tcp_gauge,
                     scrape_error: err,
                 });
             }
@@ -917,6 +926,21 @@ fn judge(plan: &UPlan, o: &Obs, flows_mode: bool, out: &mut Outcome) {
                     format!("udp:{}:gauge-differs-from-sockets", proto),
                     format!("at op {}: outbound_udp_sockets = {}, open sockets = {}", snap.op, g, snap.open_socks.len()),
                 );
+                // the same observation decides C16's UDP clause
+                out.violate(
+                    "C16",
+                    format!("metrics:udp:{}:outbound_udp_sockets-differs", proto),
+                    format!("at op {}: outbound_udp_sockets = {}, open sockets = {}", snap.op, g, snap.open_socks.len()),
+                );
+            }
+        }
+        if let Some(t) = snap.tcp_gauge {
+            if t != 0.0 {
+                out.violate(
+                    "C16",
+                    format!("metrics:udp:{}:outbound_tcp_sockets-not-zero", proto),
+                    format!("at op {}: outbound_tcp_sockets = {} although no TCP tunnel exists", snap.op, t),
+                );
             }
         }
         // per flow: must the socket be open / closed at this instant?
@@ -973,24 +997,50 @@ fn judge(plan: &UPlan, o: &Obs, flows_mode: bool, out: &mut Outcome) {
             }
         }
     }
-    // a datagram on a pair whose flow expired starts a fresh flow: it is not lost
+    // a datagram on a pair whose flow expired - or was closed by a socket error - starts a fresh
+    // flow: it is not lost. Only datagrams that race with an error (5 ms before to 50 ms after
+    // it was injected) may be.
     for (f, (_, dst)) in flows.iter().enumerate() {
-        if broken[f] || o.errors_injected.iter().any(|e| e.1 == f) {
+        if broken[f] {
             continue;
         }
+        let errs: Vec<u64> = o.errors_injected.iter().filter(|e| e.1 == f).map(|e| e.2).collect();
         let exp: Vec<&SentRec> = per_flow_expected.get(&f).cloned().unwrap_or_default();
         let got: Vec<&world::UdpSent> = o.udp_sent.iter().filter(|s| s.dst == *dst).collect();
-        if got.len() != exp.len() {
-            // which one is missing, and was its flow expired before?
-            let missing = exp.iter().find(|e| !got.iter().any(|g| g.payload == e.payload));
-            if let Some(m) = missing {
-                let prev = exp.iter().filter(|e| e.t_us < m.t_us).map(|e| e.t_us).max();
-                let after_expiry = prev.map(|p| m.t_us - p > t).unwrap_or(false);
-                out.violate(
-                    "C07",
-                    format!("udp:{}:datagram-lost{}", proto, if after_expiry { ":first-after-expiry" } else { "" }),
-                    format!("flow {} -> {}: the datagram of op {} ({} bytes) never left the endpoint", f, dst, m.op, m.payload.len()),
-                );
+        let missing = exp
+            .iter()
+            .filter(|e| !errs.iter().any(|te| e.t_us + 5_000 >= *te && e.t_us <= *te + 50_000))
+            .find(|e| !got.iter().any(|g| g.payload == e.payload));
+        if let Some(m) = missing {
+            let prev = exp.iter().filter(|e| e.t_us < m.t_us).map(|e| e.t_us).max();
+            let after_expiry = prev.map(|p| m.t_us - p > t).unwrap_or(false);
+            let after_error = errs.iter().any(|te| *te < m.t_us);
+            out.violate(
+                "C07",
+                format!(
+                    "udp:{}:datagram-lost{}",
+                    proto,
+                    if after_error { ":after-socket-error" } else if after_expiry { ":first-after-expiry" } else { "" }
+                ),
+                format!("flow {} -> {}: the datagram of op {} ({} bytes) never left the endpoint", f, dst, m.op, m.payload.len()),
+            );
+        }
+        // the socket a flow had when the error struck is released
+        for te in &errs {
+            for snap in o.snapshots.iter().filter(|s| s.t_us >= *te + 50_000) {
+                let stale = o
+                    .udp_binds
+                    .iter()
+                    .filter(|b| b.2 < *te && o.udp_sent.iter().any(|s| s.sock == b.0 && s.dst == *dst))
+                    .find(|b| snap.open_socks.contains(&b.0));
+                if let Some(b) = stale {
+                    out.violate(
+                        "C07",
+                        format!("udp:{}:socket-not-released-after-error", proto),
+                        format!("flow {}: socket {} was still open at op {}, {} us after the socket error", f, b.0, snap.op, snap.t_us - te),
+                    );
+                    break;
+                }
             }
         }
     }
